@@ -44,6 +44,9 @@ def run(ctx, res):
                 ("channel", "holds.cycles"), ("channel", "holds.n"),
                 ("channel", "head"), ("channel", "cycle")}
         missing = must - set(site["reads"])
+        if not site["loop"]:
+            LR.rule_l_recheck(la, res, site)   # reports the missing loop
+            continue
         if missing:
             raise AnalysisBroken("R(P) of the writer's wait lost fields %s" %
                                  sorted(map(LR.key_str, missing)))
